@@ -59,6 +59,25 @@ CHECKS['C20'] = dict(
          'modelled by a fuel constant (overflowing days beyond ~900 months are #VALUE! in both).',
     technique='Lean 4 proof (omega, induction, decide +kernel over generated tables) + differential correspondence check')
 
+CHECKS['C02'] = dict(
+    text=('Lean 4 theorems (XL.Props.C02) for every number type F with the operations of the model (the double of the '
+          'implementation is one instance; Int instantiates the laws with proofs): left-most error wins for all 15 '
+          'operators (arith/cmp/concat/unary_error_*), coercion of numbers, logicals, blanks and numeric text '
+          '(arith_coercion, coercion_table), other text gives #VALUE! (arith_text_value), division by zero #DIV/0! '
+          '(div_by_zero), 0^0 and 0^negative (pow_zero), non-finite/non-real results #NUM! (nonfinite_is_num), every '
+          'result is one well-formed value (result_wellformed, unary/cmp/concat_wellformed), & joins the display forms '
+          '(concat_spec, display_table), numbers < text < logicals and the six comparisons are the six relations of one '
+          'total order (cmp_rank, cmp_trichotomy, cmp_six, cmp_le_not_gt, cmp_lt_irrefl, cmp_lt_trans, cmp_blank), '
+          'unary_spec. The model with F := Float is compared bit-exactly with OPERATORS[op] on the complete '
+          'cross-product of a 66-value operand pool x 15 operators, on random finite doubles and through compiled '
+          'formulas with cell inputs and with literals; the rules are also evaluated directly on the implementation.'),
+    design='DESIGN.md §3 C02',
+    note=COMMON_NOTE + 'IEEE-754 arithmetic is not modelled in the kernel: theorems are parametric in the number type '
+         'and the order laws (LawfulNum) are hypotheses; "finite doubles satisfy LawfulNum" and "Lean Float = CPython '
+         'float on + - * / pow" are trusted and exercised bit-exactly by the correspondence. Text upper-casing is ASCII '
+         'in the model.',
+    technique='Lean 4 proof parametric in the number type + bit-exact differential correspondence check')
+
 NOT_YET = {
 }
 
